@@ -37,6 +37,27 @@ func redirect(model string) Intrinsic {
 	}
 }
 
+// lookupRepoFuncIn finds a model function in the given package of the repository (nil if absent).
+func (m *Machine) lookupRepoFuncIn(pkgPath, name string) *ssa.Function {
+	for _, p := range m.Prog.AllPackages() {
+		if p.Pkg.Path() == pkgPath {
+			return p.Func(name)
+		}
+	}
+	return nil
+}
+
+func pkgOfCaller(it *Item) string {
+	fn := it.F.fi.Fn
+	for fn.Parent() != nil {
+		fn = fn.Parent()
+	}
+	if fn.Pkg != nil {
+		return fn.Pkg.Pkg.Path()
+	}
+	return ""
+}
+
 func (m *Machine) lookupRepoFunc(name string) *ssa.Function {
 	for _, p := range m.Prog.AllPackages() {
 		if p.Pkg.Path() == m.RepoPrefix {
@@ -179,7 +200,12 @@ func registerIntrinsics(m *Machine) {
 	})
 	I["time.Since"] = inline(func(m *Machine, it *Item, a []Value) Value {
 		d := m.Fresh("since", m.intSort())
-		m.Assume(c.And(m.sle(m.IntC(0), d), m.sle(d, m.IntC(1<<62))), "time.Since returns a non-negative duration")
+		lo := int64(0)
+		if m.SincePositive {
+			lo = 1
+			m.Assumptions["the clock advances by at least 1ns between the start time of a decorator and a later time.Since (elapsed time is never exactly zero)"] = true
+		}
+		m.Assume(c.And(m.sle(m.IntC(lo), d), m.sle(d, m.IntC(1<<62))), "time.Since returns a non-negative duration")
 		m.logGhost("time.Since", d)
 		return d
 	})
@@ -306,10 +332,14 @@ func registerIntrinsics(m *Machine) {
 		return r
 	})
 	// ---- formatting
-	I["fmt.Sprintf"] = inline(func(m *Machine, it *Item, a []Value) Value {
-		m.logGhostV("fmt.Sprintf", a)
-		return m.FreshText("sprintf")
-	})
+	I["fmt.Sprintf"] = func(m *Machine, wl *worklist, it *Item, fn *ssa.Function, args []Value, resultReg int) bool {
+		if mf := m.lookupRepoFuncIn(pkgOfCaller(it), "vmSprintf"); mf != nil {
+			return m.callFunction(wl, it, mf, args, nil, resultReg)
+		}
+		m.finishInline(it, resultReg, m.FreshText("sprintf"))
+		return false
+	}
+	I["strconv.FormatInt"] = inline(func(m *Machine, it *Item, a []Value) Value { return m.FreshText("formatint") })
 	I["fmt.Errorf"] = inline(func(m *Machine, it *Item, a []Value) Value { return m.newError("fmt.Errorf") })
 	I["errors.New"] = inline(func(m *Machine, it *Item, a []Value) Value { return m.newError("errors.New") })
 	I["fmt.Fprintln"] = redirect("vmFprintln")
@@ -324,7 +354,8 @@ func registerIntrinsics(m *Machine) {
 		b := a[0].(Text)
 		d := m.FreshText("float")
 		m.Assume(c.And(m.sle(m.IntC(1), d.N), c.Eq(d.W, d.N)), "strconv.AppendFloat appends at least one byte")
-		m.logGhostV("strconv.AppendFloat", a[1:])
+		m.ghostLog = append(m.ghostLog, ghostRec{it.G, "putf:appendfloat.value", []Value{a[1]}},
+			ghostRec{it.G, "put:appendfloat.verb", []Value{a[2]}}, ghostRec{it.G, "put:appendfloat.prec", []Value{a[3]}})
 		return m.Concat(b, d)
 	})
 	// ---- math
